@@ -347,6 +347,8 @@ pub fn check_outcome(o: &Outcome, ovh: usize, vsz: usize) -> Vec<Fail> {
     for m in &o.violations {
         if let Some(rest) = m.strip_prefix("C19 ") {
             fail(&mut v, "C19", rest.to_owned());
+        } else if let Some(rest) = m.strip_prefix("C12 ") {
+            fail(&mut v, "C12", rest.to_owned());
         } else {
             fail(&mut v, "C06", m.clone());
         }
